@@ -2,6 +2,7 @@ import Vanguard.Lemmas.Source
 import Vanguard.Lemmas.UInt8
 import Vanguard.Gen.Facts
 import Vanguard.Lemmas.Chunking
+import Vanguard.Lemmas.EndRelay
 /-!
   C09 — Truncated or malformed streams never surface as success.
 
@@ -124,5 +125,49 @@ theorem cut_payload_is_error (w : World) (st : St) (ce : Enveloper) (hce : st.op
 example : (⟨0, 0, 0, 0, 2, [7, 8]⟩ : Frame).ok .grpcClient 16 :=
   ⟨{ length := 2 }, by decide, rfl, rfl, by decide⟩
 example : (⟨0, 0, 0, 0, 2, [7, 8]⟩ : Frame).msg .grpcClient = ([7, 8], false) := by decide
+
+/-! ### a backend response that stops inside a message is an error for the client
+
+  When the handler returns, `responseWriter.close` closes the body writer.  If the backend's output stopped
+  inside an envelope or inside a message, the writer reports an error, and by C04's relay theorem
+  (`reportError_relays`) the client reads it: code `unknown`, never a success.  (`Good`, open and `CanTell`
+  hold in every state a handler can reach: C03, C04.) -/
+
+/-- **Re-encoding path**: bytes of an unfinished envelope or message in the buffer, or a message announced by
+    its envelope of which nothing came, make `Close` report `unknown` to the client. -/
+theorem truncated_response_is_error_reencoded (w : World) (tb : Tables) (st : St) (t : TW) (hg : Good st)
+    (hopen : st.rw.endWritten = false) (ht : CanTell st) (hexp : t.expecting ≠ -1)
+    (hcut : t.buffer.isSome = true ∧ (!(t.buffer.getD []).isEmpty || (!t.writingEnvelope && t.expecting > 0)) = true) :
+    (twClose w tb st t).1.sink.clientErr st.op.cform = some (genErr 2) := by
+  unfold twClose
+  have h1 : (t.expecting == -1) = false := by
+    cases h : t.expecting == -1 with
+    | false => rfl
+    | true => exact absurd (eq_of_beq h) hexp
+  simp only [hopen, Bool.false_eq_true, if_false, h1, hcut.1, hcut.2, Bool.and_self, if_true]
+  exact reportError_relays w st .other hg hopen ht
+
+/-- **Re-framing path**: a `Close` while bytes of an envelope or of a payload are still missing (and the
+    writer is not exactly between two messages) reports `unknown` to the client. -/
+theorem truncated_response_is_error_reframed (w : World) (st : St) (e : EW) (hg : Good st)
+    (hopen : st.rw.endWritten = false) (ht : CanTell st) (hcur : e.current = .down ∨ e.current = .none)
+    (herr : e.err = false) (hrem : e.remaining > 0) (hmid : (e.writingEnvelope && e.remaining == 5) = false) :
+    (ewClose w st e).1.sink.clientErr st.op.cform = some (genErr 2) := by
+  have hflush : ewCloseFlush w st e = (st, e, false) := by
+    unfold ewCloseFlush
+    rcases hcur with h | h <;> simp [h]
+  unfold ewClose
+  rw [hflush]
+  simp only [Bool.false_eq_true, if_false, herr, Bool.false_and, hmid, Bool.not_false, Bool.and_true]
+  have : decide (e.remaining > 0) = true := by simpa using hrem
+  simp only [this, if_true]
+  exact reportError_relays w st .other hg hopen ht
+
+/-- Non-vacuity: a re-encoding writer with two bytes of an envelope, a re-framing writer with three payload
+    bytes missing - both meet the hypotheses. -/
+example : let t : TW := { buffer := some [0, 0], expecting := 5, writingEnvelope := true }
+    t.expecting ≠ -1 ∧ t.buffer.isSome = true ∧ (!(t.buffer.getD []).isEmpty || (!t.writingEnvelope && t.expecting > 0)) = true := by decide
+example : let e : EW := { initialized := true, current := .down, remaining := 3 }
+    e.err = false ∧ e.remaining > 0 ∧ (e.writingEnvelope && e.remaining == 5) = false := by decide
 
 end Vanguard.C09
